@@ -16,3 +16,5 @@ open LhasaV.Props.C06
 #print axioms LhasaV.Props.C06.access_regimes
 #print axioms LhasaV.Props.C06.sample_tree_extracts
 #print axioms LhasaV.Props.C06.dir_entry_for_existing_dir_ignored
+#print axioms LhasaV.Props.C06.option_letters_spec
+#print axioms LhasaV.Props.C06.command_letter_spec
